@@ -264,16 +264,14 @@ impl<W: tokio::io::AsyncBufRead + Unpin + tokio::io::AsyncRead> tokio::io::Async
     for ProgressBarIter<W>
 {
     fn poll_fill_buf(self: Pin<&mut Self>, cx: &mut Context<'_>) -> Poll<io::Result<&[u8]>> {
-        let this = self.get_mut();
-        let result = Pin::new(&mut this.it).poll_fill_buf(cx);
-        if let Poll::Ready(Ok(buf)) = &result {
-            this.progress.inc(buf.len() as u64);
-        }
-        result
+        // Filling the buffer transfers nothing to the caller yet (and may be repeated);
+        // the bytes are accounted for when they are consumed, as in the `BufRead` impl.
+        Pin::new(&mut self.get_mut().it).poll_fill_buf(cx)
     }
 
     fn consume(mut self: Pin<&mut Self>, amt: usize) {
         Pin::new(&mut self.it).consume(amt);
+        self.progress.inc(amt as u64);
     }
 }
 
